@@ -458,9 +458,18 @@ def main_c14():
         ("pospischil", [("Na", None), ("K", None), ("Km", None), ("CaL", None), ("CaT", None), ("Leak", None)], {}),
         ("shifted", [("Na", None), ("K", None), ("Km", None), ("CaT", None)], {"vt": -50.5, "Km_taumax": 1000.0, "CaT_vx": -7.5}),
         ("renamed", [("Na", "myNa"), ("CaT", "T2"), ("Km", "M")], {}),
+        # compartments that share a voltage but not their parameters (every voltage three times, parameters cycling)
+        ("heterogeneous", [("Na", None), ("K", None), ("Km", None), ("CaT", None), ("HH", None)],
+         {"vt": [-63.0, -50.5, -57.0], "CaT_vx": [2.0, -7.5, 0.0], "Km_taumax": [4000.0, 1000.0, 2500.0]}),
     ]
-    nv = len(volts)
+    all_volts = volts
     for sname, chlist, overrides in setups:
+        if sname == "heterogeneous":
+            sub = sorted(set([float(fr(c["x"])) for c in cells if c["pt"]][:30] + list(rng.choice(all_volts, 10, replace=False))))
+            volts = [x for x in sub for _ in range(3)]
+        else:
+            volts = all_volts
+        nv = len(volts)
         # a branch with one compartment per voltage; channels inserted only in the first 2/3 (partial insertion)
         comp = jx.Compartment()
         branch = jx.Branch(comp, ncomp=nv)
@@ -474,7 +483,10 @@ def main_c14():
             branch.comp(list(range(k_in))).insert(ch)
         for k, val in overrides.items():
             if k in branch.nodes.columns:
-                branch.set(k, val)
+                if isinstance(val, list):
+                    branch.comp(list(range(k_in))).set(k, np.asarray([val[i % len(val)] for i in range(k_in)]))
+                else:
+                    branch.set(k, val)
         branch.set("v", np.asarray(volts))
         before = branch.nodes.copy()
         branch.init_states()
@@ -508,15 +520,15 @@ def main_c14():
                                       {"setup": sname, "v": vi, "dt": dt, "init": float(s0[i]), "after_update": float(s1[i])})
                         break
     chk.set("evaluations", evals)
-    chk.set("distinct_nontrivial", len(volts))
-    chk.set("voltages", len(volts))
+    chk.set("distinct_nontrivial", len(all_volts))
+    chk.set("voltages", len(all_volts))
     chk.set("setups", [s[0] for s in setups])
     chk.set("cells", len(cells))
     chk.set("rule", "voltages = every point cell TLC derives from the traced rate programs in [-120, 60] mV plus seeded interior doubles of "
                     "every interval cell; per setup (HH, all Pospischil channels, shifted parameters, renamed channels; channels inserted "
                     "in 2/3 of the compartments) init_states() then one update at dt in %s must leave every gate unchanged to 1e-12; "
                     "distinct_nontrivial = distinct voltages" % dts)
-    chk.sample({"voltages": volts[:8], "setup": setups[2][0], "overrides": setups[2][2]})
+    chk.sample({"voltages": all_volts[:8], "setup": setups[2][0], "overrides": setups[2][2]})
     chk.assume("fixed point tested through the mechanisms' own update_states", "TLC-derived partition (ExprAbs.tla)")
     return chk.finish()
 
